@@ -2061,7 +2061,10 @@ class ImportManager:
         for statement in imports)
     self.imports = []
     self.module_selectors = {}
-    self.names = set()
+    # With dynamic registration the name `gin` is reserved, so an import that
+    # would bind it (e.g. `import gin.tf`, recorded from a file that doesn't use
+    # dynamic registration) has to be given an alias like any colliding name.
+    self.names = {'gin'} if self.dynamic_registration else set()
     # Prefer to order `from` style imports first.
     for statement in sorted(imports, key=lambda s: (s.module, not s.is_from)):
       self.add_import(statement)
